@@ -52,8 +52,8 @@ class EventLog:
         self._m = hashlib.sha256()
         self.n = 0
 
-    def log(self, kind: str, **kw):
-        rec = {"k": kind, **kw}
+    def log(self, _kind: str, **kw):
+        rec = {"k": _kind, **kw}
         s = json.dumps(rec, sort_keys=True, default=str)
         self._m.update(s.encode())
         self._m.update(b"\n")
@@ -91,3 +91,12 @@ class SimCrash(Exception):
 
 class SimInterrupt(BaseException):
     """Injected fault F3, BaseException flavour (models KeyboardInterrupt)."""
+
+
+def stable_hash(*parts) -> str:
+    """Hash that does not depend on PYTHONHASHSEED (for event logs)."""
+    m = hashlib.sha256()
+    for p in parts:
+        m.update(str(p).encode())
+        m.update(b"\x00")
+    return m.hexdigest()[:12]
